@@ -257,23 +257,50 @@ def precedence_rule(ctx, crate, rule):
         for bb, t, c in e.calls():
             if last_seg(c) == "remove" and any(flow.is_field_named(x, "envs") for a in e.call_args(bb) for x in mir.subexprs(strip_sites(a))):
                 clears = True
-    local_reads = [bb for bb, t, c in b.calls() if c.endswith("Shell::get_env") or (
-        last_seg(c) == "get" and any(flow.is_field_named(x, "envs") for a in b.call_args(bb) for x in mir.subexprs(strip_sites(a))))]
-    env_reads = [bb for bb, t, c in b.calls() if mir.short(c) == "std::env::var"]
+    def reads_of(fb):
+        loc = [bb for bb, t, c in fb.calls() if c.endswith("Shell::get_env") or (
+            last_seg(c) == "get" and any(flow.is_field_named(x, "envs") for a in fb.call_args(bb)
+                                         for x in mir.subexprs(strip_sites(a))))]
+        env = [bb for bb, t, c in fb.calls() if mir.short(c) == "std::env::var"]
+        return loc, env
+    # every function of the `$NAME` pass: expand_env and what it reaches inside the crate (the lookup helper itself excepted)
+    cg = crate.callgraph()
+    scope, todo = set(), ["shell::expand_env"]
+    while todo:
+        x = todo.pop()
+        if x in scope or x.endswith("Shell::get_env"):
+            continue
+        scope.add(x)
+        todo.extend(cg.get(x, ()))
+        todo.extend(cb.path for cb in crate.closures_of(x))
+    scope.add(b.path)
     ok = clears
     detail = "export clears the shell-local entry" if clears else ""
+    n_local = n_env = 0
+    where = None
     if not clears:
-        ok = bool(env_reads) and bool(local_reads)
-        for lb in local_reads:
-            facts = dom_facts(b, lb)
-            # reached only after env::var(key) failed
-            if not any(a[0] == "discr" and v == "Err" and a[1][0] == "call" and mir.short(a[1][1]) == "std::env::var"
-                       for a, v in facts):
-                ok = False
-        detail = "shell-local lookup %s" % ("only after env::var(key) returned Err" if ok else
-                                            "is not preceded by the environment lookup: after `N=a; export N=b`, `$N` yields the stale a")
+        bad = []
+        for p in sorted(scope):
+            fb = crate.fn(p)
+            if fb is None:
+                continue
+            local_reads, env_reads = reads_of(fb)
+            n_local += len(local_reads)
+            n_env += len(env_reads)
+            for lb in local_reads:
+                facts = dom_facts(fb, lb)
+                # reached only after env::var(key) failed
+                if not any(a[0] == "discr" and v == "Err" and a[1][0] == "call" and mir.short(a[1][1]) == "std::env::var"
+                           for a, v in facts):
+                    bad.append(p)
+                    where = where or fb.loc(lb)
+        ok = bool(n_env) and bool(n_local) and not bad
+        detail = "shell-local lookup %s" % ("only after env::var(key) returned Err (%d lookup(s) in %d function(s) of the pass)" %
+                                            (n_local, len(scope)) if ok else
+                                            "in %s is not preceded by the environment lookup: after `N=a; export N=b`, `$N` "
+                                            "yields the stale a" % ", ".join(sorted(set(bad))))
     ctx.ob(rule, b.path, "`$NAME` prefers the exported value over a same-named shell variable", ok,
-           key="%s|%s|precedence" % (rule, b.path), crate=crate.kind, detail=detail)
+           key="%s|%s|precedence" % (rule, b.path), crate=crate.kind, detail=detail, where=where)
 
 
 def unset_everywhere(ctx, crate, b, rule):
